@@ -378,6 +378,30 @@ func c20Systematic(tier string) []*Case {
 		}
 		out = append(out, cs)
 	}
+	// marathons: 1500-line sessions cycling through the whole pool in two different orders —
+	// whatever a line leaves behind (a pooled buffer, a cache entry, a counter, a scope) must
+	// not build up until the N-th line answers differently from a fresh session
+	for _, stride := range []int{1, 37} {
+		var cheap []c20Line
+		for _, l := range c20Pool {
+			if strings.HasPrefix(l.class, "long") || strings.Contains(l.name, "deep") {
+				continue
+			}
+			cheap = append(cheap, l)
+		}
+		var sess []c20Line
+		var ls []string
+		for i := 0; i < 1500; i++ {
+			l := cheap[(i*stride)%len(cheap)]
+			sess = append(sess, l)
+			ls = append(ls, l.text)
+		}
+		base := replCfg(c20SessionStdin(ls))
+		base.Budget = 200000000
+		cs := c20Case(sess, []sim.Config{withDelivery(base, "all")}, []string{"all"}, "marathon")
+		cs.Sig = fmt.Sprintf("marathon:stride%d", stride)
+		out = append(out, cs)
+	}
 	// echo
 	for _, e := range c20Echo {
 		cs := &Case{Prop: "C20", Kind: "echo", Sig: "echo:" + e, Program: e + ";"}
